@@ -35,10 +35,48 @@ def scripts(rng, n):
     return out
 
 
-def check(ctx, key, n_quick, n_thorough, passes=2):
+def persist_scripts(rng, n):
+    """a name FIRST assigned inside a top-level for / while / if-else of the prologue (so its declaration is hoisted) and then updated in the
+    main loop — directly, augmented, under an `if`, inside a nested loop: the update must persist from pass to pass as in Python"""
+    out = []
+    for _ in range(n):
+        a, k = rng.randint(1, 9), rng.randint(1, 4)
+        lines = [f"seed = {a}"]
+        how = rng.choice(["for", "while", "ifelse", "for2"])
+        if how == "for":
+            lines += [f"for i in range({k}):", f"    last = seed + i * {rng.randint(1, 5)}"]
+        elif how == "for2":
+            lines += [f"for i in range({k}):", f"    last = seed + i", f"    peak = last * 2"]
+        elif how == "while":
+            lines += ["n = 0", f"while n < {k}:", f"    last = seed * {rng.randint(2, 4)} + n", "    n += 1"]
+        else:
+            lines += [f"if seed > {rng.randint(0, 9)}:", f"    last = seed + {rng.randint(10, 20)}", "else:", f"    last = {rng.randint(30, 40)}"]
+        if rng.random() < 0.4:
+            lines.append("mon.write(last)")
+        upd = rng.choice(["last = last + 5", "last += 3", "last = last * 2 - seed", "last = last + seed", "last, seed = last + seed, seed + 1"])
+        body = rng.choice(["plain", "if", "nested-for", "nested-while", "else"])
+        lines.append("while True:")
+        if body == "plain":
+            lines += ["    " + upd]
+        elif body == "if":
+            lines += [f"    if last > {rng.randint(0, 5)}:", "        " + upd]
+        elif body == "else":
+            lines += [f"    if last < 0:", "        mon.write(0)", "    else:", "        " + upd]
+        elif body == "nested-for":
+            lines += [f"    for j in range({rng.randint(1, 3)}):", "        " + upd]
+        else:
+            lines += ["    m = 0", f"    while m < {rng.randint(1, 3)}:", "        " + upd, "        m += 1"]
+        lines += ["    mon.write(last)"]
+        if how == "for2":
+            lines += ["    peak = peak + last", "    mon.write(peak)"]
+        out.append(HEAD + "\n".join(lines) + "\n")
+    return out
+
+
+def check(ctx, key, n_quick, n_thorough, passes=2, family=scripts):
     import cxx
     import pyoracle
-    srcs = scripts(ctx.rng, ctx.n(n_quick, n_thorough))
+    srcs = family(ctx.rng, ctx.n(n_quick, n_thorough))
     outs = [cxx.transpile(s) for s in srcs]
     jobs = [(cpp, passes, "") for cpp, e in outs if cpp is not None]
     it = iter(cxx.run_many(ctx, jobs))
